@@ -546,6 +546,14 @@ func c20(e *e3, thorough bool) {
 		if !bytes.Equal(m2, []byte("abc")) || string(t2) != "t" || fix.Message[0] != 'a' {
 			e.violate("C20", "readslices-stub-aliases", "mutating a stub return changed the next return")
 		}
+		// two results alive at once are private to each other
+		if m1[0] != 'X' || t1[0] != 'X' {
+			e.violate("C20", "readslices-stub-aliases", "a later invocation overwrote a slice returned earlier")
+		}
+		m2[1], t2[0] = 'Y', 'Y'
+		if m1[1] != 'b' || t1[0] != 'X' {
+			e.violate("C20", "readslices-stub-aliases", "writing to one returned slice shows in another")
+		}
 		for _, fixErr := range []error{nil, io.EOF} {
 			for qi, quit := range []<-chan struct{}{nil, make(chan struct{}), closedQuit} {
 				for name, f := range map[string]func(<-chan struct{}) error{
